@@ -18,7 +18,8 @@ import vlib, mmlgen
 COQ_TARGET = "props/C08.v"
 THEOREMS = ["C08_lookup_order_independent", "C08_lookup_spec", "C08_table_names_distinct", "C08_system_functions_order_free",
             "C08_iteration_order", "C08_reserved_is_membership", "C08_random_seeded", "C08_seed_orbit", "C08_draw_consumes",
-            "C08_write_sites", "C08_text_relation", "C08_language_lexer", "C08_language_noninterference", "C08_language_only_in_log"]
+            "C08_write_sites", "C08_text_relation", "C08_language_lexer", "C08_language_noninterference", "C08_language_only_in_log",
+            "C08_language_script_noninterference", "C08_language_script_only_in_log"]
 DRIVERS = ["core", "script"]
 RULE = ("sources: core-language programs, junk token soup, Japanese (sutoton) programs, /repo/samples and their mutations, "
         "programs using randomness (x.Random, Random(), RandomSelect, RandomSeed, RndTiming, sutoton '曖昧さ'), the corpus. "
